@@ -50,7 +50,7 @@ for id in C07 C12; do $E $id rename-sortednames-locals cmd/swagger/commands/diff
 for id in C07 C08; do $E $id rename-parammappings-locals generator/operation.go 's/\bprevious\b/earlier/g' 's/\bseenIDs\b/taken/g' 's/\bidMapping\b/goNames/g'; done
 $E C12 nil-test-after-resolution cmd/swagger/commands/diff/type_adapters.go 's/^\t\tif schema == nil {$/\t\tif nil == schema {/'
 $E C15 rename-readignores-locals cmd/swagger/commands/diff.go 's/\bignoreDiffs\b/entries/g' 's/\bbyteValue\b/raw/g' 's/\bjsonFile\b/fh/g'
-$E C09 rename-padcomment-locals generator/template_repo.go 's/\bfor i, line := range lines\b/for n, row := range lines/' 's/if text := strings.TrimLeft(line, " \\t"); strings.HasPrefix(text, "+build") {/if rest := strings.TrimLeft(row, " \\t"); strings.HasPrefix(rest, "+build") {/' 's/lines\[i\] = line\[:len(line)-len(text)\] + "\[+\]" + strings.TrimPrefix(text, "+")/lines[n] = row[:len(row)-len(rest)] + "[+]" + strings.TrimPrefix(rest, "+")/'
+$E C09 rename-padcomment-locals generator/template_repo.go 's/\bfor i, line := range lines\b/for n, row := range lines/' 's/if text := strings.TrimLeftFunc(line, unicode.IsSpace); strings.HasPrefix(text, "+build") {/if rest := strings.TrimLeftFunc(row, unicode.IsSpace); strings.HasPrefix(rest, "+build") {/' 's/lines\[i\] = line\[:len(line)-len(text)\] + "\[+\]" + strings.TrimPrefix(text, "+")/lines[n] = row[:len(row)-len(rest)] + "[+]" + strings.TrimPrefix(rest, "+")/'
 $E C10 rename-flatten-locals generator/spec.go 's/\bspecDoc\b/document/g'
 # round 8: equivalent spellings of the constructs the round-8 rules look at
 for id in C01 C04; do $E $id rename-serializers-locals generator/media.go 's/\buniqueSerializerGroups\b/groupsByName/g' 's/\buniqueSerializers\b/byMediaType/g'; done
@@ -61,4 +61,9 @@ $E C16 rename-retype-locals codescan/schema.go 's/\bisString\b/quoted/g' 's/\bsf
 $E C17 rename-processdecl-locals codescan/application.go 's/\bisNamed\b/named/g' 's/\bcomments\b/doc/g'
 $E C17 rename-responses-locals codescan/parser.go 's/\barrays\b/depth/g' 's/\brefTarget\b/target/g'
 $E C05 rename-additional-locals generator/templates/serializers/additionalpropertiesserializer.gotmpl 's/\bstage2\b/extras/g' 's/\bstage1\b/declared/g'
-$E C03 rename-newparams-locals generator/templates/server/parameter.gotmpl 's/\bqvDefault\b/dflt/g'
+# round 9
+for id in C06 C08; do $E $id rename-schemes-locals generator/support.go 's/\brequiredSecuritySchemes\b/required/g'; done
+$E C07 rename-routeparams-locals codescan/route_params.go 's/\benumValues\b/listed/g' 's/\bfinalEnum\b/converted/g'
+$E C10 rename-readable-locals generator/support.go 's/for _, b := range string(spec) {/for _, r := range string(spec) {/' "s/if b == '\`' {/if r == '\`' {/" 's/buf.WriteRune(b)/buf.WriteRune(r)/'
+$E C12 rename-items-locals cmd/swagger/commands/diff/spec_analyser.go 's/\bitems1\b/left/g' 's/\bitems2\b/right/g'
+$E C15 rename-reportchanges-locals cmd/swagger/commands/diff/spec_difference.go 's/\btoReportList\b/lines/g' 's/\beachDiff\b/line/g'
